@@ -107,7 +107,7 @@ func rule161(r *core.Run) {
 		seen++
 		own, other := false, ""
 		for _, g := range core.GuardsOf(c) {
-			gs := r.P.SliceOf(g.If.Cond, core.SliceOpts{Depth: -1})
+			gs := r.P.SliceOf(g.If.Cond, core.SliceOpts{Depth: -1, Control: true})
 			if gs.Has(fld) {
 				own = true
 			}
@@ -678,7 +678,7 @@ func rule167(r *core.Run, mws []hostMW) {
 	dotCalls := []string{"strings.IndexByte", "strings.Index", "strings.Contains", "strings.ContainsRune", "strings.Count", "strings.IndexRune", "strings.ContainsAny", "strings.LastIndex", "strings.LastIndexByte", "strings.Cut"}
 	evidence := func(guards []core.Guard) (suffix, nodot bool) {
 		for _, g := range guards {
-			gs := r.P.SliceOf(g.If.Cond, core.SliceOpts{Depth: -1})
+			gs := r.P.SliceOf(g.If.Cond, core.SliceOpts{Depth: -1, Control: true})
 			if gs.HasCallTo("strings.HasSuffix") || gs.HasCallTo("strings.CutSuffix") {
 				suffix = true
 			}
@@ -1033,42 +1033,68 @@ func rule168(r *core.Run) {
 	if n < 2 {
 		r.Unresolved("R16.8: %d option stores found (expected 2)", n)
 	}
-	// Server(): base middleware guarded by the base list only
+	// Server(): which middleware is installed for which option values — asked as reachability under
+	// assumed outcomes of the tests on the two fields, so the shape of the selection (if-chain, switch,
+	// mode enum computed by a helper) does not matter
 	if srv := mustFunc(r, "gofakes3.(*GoFakeS3).Server"); srv != nil {
+		type test struct {
+			v        ssa.Value
+			nonEmpty bool // for a base-list test: the truth value that means "bases configured"
+		}
+		var hbTests, baseTests []test
 		core.Instrs(srv, func(in ssa.Instruction) {
-			c, ok := in.(*ssa.Call)
-			if !ok {
-				return
-			}
-			switch r.P.CalleeName(c) {
-			case "gofakes3.(*GoFakeS3).hostBucketBaseMiddleware":
-				bad := ""
-				for _, ec := range expandedConds(c) {
-					if ec.merged {
-						continue
-					}
-					gs := r.P.SliceOf(ec.cond, core.SliceOpts{Depth: -1})
-					if gs.Has("field:gofakes3.GoFakeS3.hostBucket") {
-						bad = "hostBucket"
+			switch x := in.(type) {
+			case *ssa.UnOp:
+				if x.Op == token.MUL {
+					if fa, ok := x.X.(*ssa.FieldAddr); ok && r.P.FieldName(fa) == "gofakes3.GoFakeS3.hostBucket" {
+						hbTests = append(hbTests, test{v: x})
 					}
 				}
-				r.Check(bad == "", "R16.8", key(fname(r, srv), "base middleware depends on the base list alone"), pos(r, c), "installed whenever bases are configured",
-					"the base middleware is installed only if hostBucket is also set: WithHostBucketBase(x) combined with WithHostBucket(false) loses the bases")
-			case "gofakes3.(*GoFakeS3).hostBucketMiddleware":
-				okHB, okEmpty := false, false
-				for _, ec := range expandedConds(c) {
-					gs := r.P.SliceOf(ec.cond, core.SliceOpts{Depth: -1})
-					if gs.Has("field:gofakes3.GoFakeS3.hostBucket") && ec.truth != core.CondOf(ec.cond).Neg {
-						okHB = true
-					}
-					if gs.Has("field:gofakes3.GoFakeS3.hostBucketBases") {
-						okEmpty = true
-					}
+			case *ssa.BinOp:
+				k, isK := core.ConstInt(x.Y)
+				if !isK || !r.P.SliceOf(x.X, core.SliceOpts{Depth: -1}).Has("field:gofakes3.GoFakeS3.hostBucketBases") {
+					return
 				}
-				r.Check(okHB && okEmpty, "R16.8", key(fname(r, srv), "plain middleware when hostBucket is set and no base is configured"), pos(r, c), "hostBucket && no bases",
-					"the plain host middleware is not installed exactly when hostBucket is set and the base list is empty")
+				switch {
+				case x.Op == token.GTR && k == 0, x.Op == token.NEQ && k == 0, x.Op == token.GEQ && k == 1:
+					baseTests = append(baseTests, test{x, true})
+				case x.Op == token.EQL && k == 0, x.Op == token.LEQ && k == 0, x.Op == token.LSS && k == 1:
+					baseTests = append(baseTests, test{x, false})
+				}
 			}
 		})
+		assume := func(hb, bases bool) map[ssa.Value]bool {
+			m := map[ssa.Value]bool{}
+			for _, t := range hbTests {
+				m[t.v] = hb
+			}
+			for _, t := range baseTests {
+				m[t.v] = t.nonEmpty == bases
+			}
+			return m
+		}
+		var baseCall, plainCall *ssa.Call
+		core.Instrs(srv, func(in ssa.Instruction) {
+			if c, ok := in.(*ssa.Call); ok {
+				switch r.P.CalleeName(c) {
+				case "gofakes3.(*GoFakeS3).hostBucketBaseMiddleware":
+					baseCall = c
+				case "gofakes3.(*GoFakeS3).hostBucketMiddleware":
+					plainCall = c
+				}
+			}
+		})
+		if baseCall == nil || plainCall == nil || len(hbTests) == 0 || len(baseTests) == 0 {
+			r.Unresolved("R16.8: Server() no longer tests both addressing fields / installs both middlewares (%d, %d tests)", len(hbTests), len(baseTests))
+		} else {
+			reach := func(c *ssa.Call, hb, bases bool) bool { return core.ReachableFromEntryAssuming(c, assume(hb, bases)) }
+			okBase := reach(baseCall, false, true) && reach(baseCall, true, true) && !reach(baseCall, true, false) && !reach(baseCall, false, false)
+			r.Check(okBase, "R16.8", key(fname(r, srv), "base middleware depends on the base list alone"), pos(r, baseCall), "installed exactly when bases are configured, whatever hostBucket says",
+				"the base middleware is not installed exactly when the base list is non-empty (it also depends on hostBucket): WithHostBucketBase(x) combined with WithHostBucket(false) loses the bases")
+			okPlain := reach(plainCall, true, false) && !reach(plainCall, false, false) && !reach(plainCall, true, true) && !reach(plainCall, false, true)
+			r.Check(okPlain, "R16.8", key(fname(r, srv), "plain middleware when hostBucket is set and no base is configured"), pos(r, plainCall), "hostBucket && no bases",
+				"the plain host middleware is not installed exactly when hostBucket is set and the base list is empty")
+		}
 	}
 	// the host compared with the bases is the header itself
 	bm := mustFunc(r, "gofakes3.(*GoFakeS3).hostBucketBaseMiddleware")
